@@ -44,6 +44,60 @@ class Build:
         return out
 
 
+def shuffle_outcomes(tier, seed):
+    """stories with shuffles: WHICH alternative a shuffle draws depends on the story seed and on the path of the
+    sequence's container, which the two compilers need not choose alike - so the step-by-step comparison masks the
+    text of these stories.  What must agree is the set of possible outcomes: the same fixed choice path is played
+    under 256 story seeds on both stories, and for k = 1..4 turns the two SETS of line sequences of the first k turns have
+    to be equal (a handful of alternatives: at most 18 outcomes for k = 4, each missed by 256 draws with probability
+    < 1e-6; the seeds are fixed, so the result is deterministic)."""
+    import json
+    wd = lib.workdir("C05")
+    progs = [c for c in common.corpus_programs() if "shuffle" in c["id"]]
+    nseeds, depth = 256, 3
+    scs = []
+    for pi, p in enumerate(progs):
+        for side, spec in (("ref", {"file": p["file"]}), ("own", {"inkfile": p["inkfile"]})):
+            for sd in range(nseeds):
+                script = [{"op": "new"}, {"op": "turn"}]
+                for _ in range(depth):
+                    script += [{"op": "choose", "i": 0, "mod": True}, {"op": "turn"}]
+                scs.append({"case": [pi, side, sd], "programs": [spec], "seed": sd, "fuel": 20000,
+                            "obs": {"save": False, "vars": False, "visits": False}, "script": script})
+    recs = lib.run_inkdrive(scs, wd, name="shuffle", timeout=1800)
+    outcomes = {}
+    for key, rs in lib.by_case(recs).items():
+        pi, side, sd = json.loads(key)
+        if any(r.get("op") == "programs" and r["programs"][0].get("compile_error") for r in rs):
+            continue
+        turns = [[]]
+        for r in rs:
+            if r.get("op") == "cont" and r.get("res") == "ok":
+                turns[-1].append(r.get("val"))
+            elif r.get("op") == "choose":
+                turns.append([])
+        for k in range(1, len(turns) + 1):
+            outcomes.setdefault((pi, side), set()).add(tuple(tuple(t) for t in turns[:k]))
+    nviol, compared = 0, 0
+    known = {k["fp"]: k for k in lib.known_findings() if k["prop"] == "C05"}
+    for pi, p in enumerate(progs):
+        ref, own = outcomes.get((pi, "ref")), outcomes.get((pi, "own"))
+        if not ref or not own:
+            continue
+        compared += 1
+        if ref != own:
+            fp = "%s/Shuffle.outcomes" % p["id"]
+            if fp in known:
+                print("KNOWN-FINDING: property=C05 %s %s" % (fp, known[fp]["text"]))
+                continue
+            nviol += 1
+            path = lib.write_replay("C05", dict(fingerprint=fp, story=p["inkfile"], reference=p["file"], seeds=nseeds,
+                                                only_reference=sorted(ref - own)[:5], only_this_compiler=sorted(own - ref)[:5]))
+            print("VIOLATION property=C05 replay=%s" % path)
+    lib.log("[C05] shuffle stories compared by outcome sets: %d, violations=%d" % (compared, nviol))
+    return nviol, compared
+
+
 def run(tier, seed):
     quick = tier == "quick"
     corpus = common.corpus_programs()
@@ -61,8 +115,19 @@ def run(tier, seed):
                      "unbound externals use their Ink fallbacks in both"])
     nviol += runner.run_relational(
         "C05", big, Build(tier, seed), tier, seed, "translation_validation",
-        rule="The Intercept: breadth-first bounded (%s)" % ("120 paths x depth 10" if quick else "5000 paths x depth 30"),
-        ex_kw=dict(depth=10 if quick else 30, max_paths=120 if quick else 5000, obs=dict(save=False, visits=False), fuel=2000000),
+        rule="The Intercept: breadth-first bounded (%s) plus %d random walks to the end of the story; shuffle stories "
+             "additionally by outcome sets over 256 story seeds" % ("120 paths x depth 10" if quick else "5000 paths x depth 30",
+                                                                      12 if quick else 150),
+        ex_kw=dict(depth=10 if quick else 30, max_paths=120 if quick else 5000, obs=dict(save=False, visits=False), fuel=2000000,
+                   walks=dict(n=12 if quick else 150, depth=120, seed=seed)),
         case_kw=dict(cmp=CMP, cmpall=CMP, cmpcb=False, cmpsave=False, cmpval=False, probed=True),
         extra_cov=dict(programs=len(small) + len(big)))
-    return nviol
+    sv, compared = shuffle_outcomes(tier, seed)
+    if sv:
+        # the evidence file is written by run_relational: add the shuffle result to it
+        import json
+        path = os.path.join(lib.VERIF, "evidence", "C05.json")
+        ev = json.load(open(path))
+        ev["violations"] = ev.get("violations", 0) + sv
+        json.dump(ev, open(path, "w"), indent=1, sort_keys=True)
+    return nviol + sv
